@@ -230,6 +230,7 @@ def cases(draw):
 
 class C33(core.Prop):
     id = "C33"
+    ready = True
     drivers = ["mpi_interp"]
     sizes = {"quick": 300, "thorough": 8000}
     max_workers = 4
